@@ -24,8 +24,7 @@ import (
 type Broker[T any] struct {
 	wg        fun.WaitGroup
 	publishCh chan T
-	subCh     chan chan T
-	unsubCh   chan chan T
+	subCh     chan subscriptionChange[T]
 	opts      BrokerOptions
 	stats     chan func(BrokerStats)
 
@@ -136,8 +135,7 @@ func makeBroker[T any](opts BrokerOptions) *Broker[T] {
 	return &Broker[T]{
 		opts:      opts,
 		publishCh: make(chan T),
-		subCh:     make(chan chan T, opts.BufferSize),
-		unsubCh:   make(chan chan T, opts.BufferSize),
+		subCh:     make(chan subscriptionChange[T], opts.BufferSize),
 		stats:     make(chan func(BrokerStats)),
 	}
 }
@@ -151,10 +149,12 @@ func (b *Broker[T]) startQueueWorkers(ctx context.Context, dist Distributor[T]) 
 			select {
 			case <-ctx.Done():
 				return
-			case msgCh := <-b.subCh:
-				subs.Ensure(msgCh)
-			case msgCh := <-b.unsubCh:
-				subs.Delete(msgCh)
+			case change := <-b.subCh:
+				if change.remove {
+					subs.Delete(change.ch)
+				} else {
+					subs.Ensure(change.ch)
+				}
 			case fn := <-b.stats:
 				fn(BrokerStats{
 					Subscriptions: subs.Len(),
@@ -300,23 +300,33 @@ func (b *Broker[T]) Subscribe(ctx context.Context) chan T {
 	select {
 	case <-ctx.Done():
 		return nil
-	case b.subCh <- msgCh:
+	case b.subCh <- subscriptionChange[T]{ch: msgCh}:
 		return msgCh
 	}
 }
 
 // Unsubscribe removes a channel from the broker.
 func (b *Broker[T]) Unsubscribe(ctx context.Context, msgCh chan T) {
+	change := subscriptionChange[T]{ch: msgCh, remove: true}
 	select {
-	case b.unsubCh <- msgCh:
+	case b.subCh <- change:
 		// try to unsubscribe if the channel isn't full (it
 		// really shouldn't be.)
 	default:
 		select {
-		case b.unsubCh <- msgCh:
+		case b.subCh <- change:
 		case <-ctx.Done():
 		}
 	}
+}
+
+// subscriptionChange is a request to the event loop to add or remove
+// a subscription. Both kinds travel through one channel: with a
+// buffered broker a Subscribe and the Unsubscribe that follows it must
+// reach the event loop in that order.
+type subscriptionChange[T any] struct {
+	ch     chan T
+	remove bool
 }
 
 // Publish distributes a message to all subscribers.
